@@ -37,10 +37,15 @@ Definition c19_spec_eff_build := spec_eff_build.
 Definition c19_build_invalid := build_invalid.
 Definition c19_kf_build_fallback := kf_build_fallback.
 
+Definition c19_init_file (f : fs) (il : iflags) (force : bool) : result := run_init_file f il force.
+Definition c19_init_file_ok := init_file_ok_b.
+Definition c19_validate_ok (f : fs) (c : config) : bool := match validate f c with None => true | Some _ => false end.
+
 Extraction Language OCaml.
 Extraction "tt_c19.ml" c19_save c19_load c19_preserved c19_roundtrip c19_lib_ok
   c19_saveable c19_normalise c19_generate c19_init c19_spec_eff
   c19_spec_invalid c19_generate_ok c19_init_ok
   c19_init_target c19_fs_get c19_norm
   c19_flat_json c19_from_flat c19_from_file c19_flat_roundtrip c19_generate_c c19_generate_c_ok c19_spec_eff_c
-  c19_build c19_build_ok c19_spec_eff_build c19_build_invalid c19_kf_build_fallback.
+  c19_build c19_build_ok c19_spec_eff_build c19_build_invalid c19_kf_build_fallback
+  c19_init_file c19_init_file_ok c19_validate_ok.
